@@ -3,7 +3,7 @@
 import json, sys
 pid = sys.argv[1]
 mode = sys.argv[2] if len(sys.argv) > 2 else 'break'      # break | break2 | harmless
-root = {'break': '/tmp/seed', 'break2': '/tmp/seed2', 'break3': '/tmp/seed3', 'break4': '/tmp/seed4', 'harmless': '/tmp/harmless', 'harmless2': '/tmp/harmless2'}[mode]
+root = {'break': '/tmp/seed', 'break2': '/tmp/seed2', 'break3': '/tmp/seed3', 'break4': '/tmp/seed4', 'harmless': '/tmp/harmless', 'harmless2': '/tmp/harmless2', 'harmless3': '/tmp/harmless3'}[mode]
 hints = ''
 for l in open('/verif/properties.jsonl'):
     p = json.loads(l)
@@ -40,7 +40,7 @@ if mode in ('break2', 'break3', 'break4'):
 files = ', '.join(p['anchors']['files'])
 mech = '; '.join(m['where'] for m in p['anchors']['mechanism'])
 hused = ''
-if mode == 'harmless2':
+if mode in ('harmless2', 'harmless3'):
     hu = []
     for d in sorted(glob.glob('/verif/harmless/%s-*' % pid)):
         try:
@@ -52,8 +52,12 @@ if mode == 'harmless2':
              'carefully) still holds: floating-point reassociation whose effect stays at rounding level (1e-12 relative), a different '
              'but still appropriate exception class or message for INVALID inputs that the property does not talk about, renamed / '
              'inlined / split PRIVATE helpers and changed internal call structure, reworded or added log messages, a different order '
-             'of dictionary keys, extra defensive copies, caching that is correctly invalidated, numpy idioms replaced by equivalent ones.\n')
-if mode in ('harmless', 'harmless2'):
+             'of dictionary keys, extra defensive copies, caching that is correctly invalidated, numpy idioms replaced by equivalent ones.\n'
+             + ('Also welcome this time: changes of input handling that keep the property (accepting more input kinds, e.g. lists or other '
+                'dtypes, converting to float64 early, taking defensive copies, None-defaults resolved in a helper), a different but valid '
+                'convention where the property leaves a choice open (say which clause leaves it open), and rewrites of functions that the '
+                'anchored code CALLS (shared helpers in emd/support.py, emd/utils.py, emd/_cycles_support.py).\n' if mode == 'harmless3' else ''))
+if mode in ('harmless', 'harmless2', 'harmless3'):
     print(f"""You are helping to test a verification tool for FALSE ALARMS. Work ONLY inside the scratch git worktree {root}/{pid}/repo (a checkout of the Python library `emd`, AJQuinn/emd-mirror; Python interpreter: /venv/bin/python; run scripts with `cd {root}/{pid}/repo && PYTHONPATH={root}/{pid}/repo /venv/bin/python script.py` so that the worktree's code is imported — verify with `print(emd.__file__)`). Do not read or touch /verif or /repo. No network.
 
 Property (it holds for the library as it is, and must STILL hold after your changes):
